@@ -34,7 +34,8 @@ Print Assumptions C03_latest_entry_decides.
 From Verif Require Import Gen.GenCheckpoint Model.InitialAnchor Proofs.InitialAnchorProofs.
 
 Theorem C03_initial_exact_when_unchanged : forall cl snapshot i,
-  NoDup snapshot -> positional cl snapshot i = by_content cl snapshot snapshot i.
+  NoDup snapshot -> forallb (fits (len snapshot)) cl = true ->
+  positional cl snapshot i = by_content cl snapshot snapshot i.
 Proof. exact positional_exact_when_unchanged. Qed.
 Print Assumptions C03_initial_exact_when_unchanged.
 
